@@ -99,14 +99,6 @@ Fixpoint obs_cells (k : nat) (h : list cell) (c : cellid) : list cellid :=
            end
   end.
 
-(* the cell a returning call hands to its caller *)
-Definition result_cell (n : name) (sh : shared) (p : pc) : option cellid :=
-  match p with
-  | PLookup => lookup (cmap sh) n
-  | PReturn c => Some c
-  | _ => None
-  end.
-
 Definition obs_events (k : nat) (t : tid) (res : result) (sh : shared) (rc : option cellid) : list event :=
   match res, rc with
   | ROk _, Some c => map (EObs t) (obs_cells k (heap sh) c)
